@@ -589,6 +589,14 @@ def mk_ite(c, a, b):
     at = c.single_atom()
     if at is not None and at.kind == 'not':
         return mk_ite(at.args[0], b, a)
+    # cofactors: inside the arms the condition itself is decided (c ? (c ? x : y) : z  ==  c ? x : z)
+    if at is None or at.kind != 'and':
+        if c.key in _conditions_memo(a):
+            a = assume(a, {c.key: True})
+        if c.key in _conditions_memo(b):
+            b = assume(b, {c.key: False})
+        if a.key == b.key:
+            return a
     # L.append(x) on one branch, L.append(y) on the other  ==  L.append(x if c else y)
     xa, xb = a.single_atom(), b.single_atom()
     if xa is not None and xb is not None and xa.kind == 'call' and xb.kind == 'call' and xa.args[0] == 'mut.append' \
@@ -748,6 +756,27 @@ def mk_call(fn, args=(), kwargs=()):
         xa = args[0].single_atom()
         if xa is not None and xa.kind == 'list':
             args = [mk_tuple(xa.args)] + list(args[1:])     # concatenate([a, b]) == concatenate((a, b))
+    # constant folding of text formatting: f"{'END':<80}" is the 80-character string, "x".encode() the bytes
+    if fn == 'fmt' and len(args) == 2 and not kwargs:
+        va, sa_ = args[0].single_atom(), args[1].single_atom()
+        if va is not None and va.kind == 'str' and sa_ is not None and sa_.kind == 'str':
+            try:
+                return Term.of(Atom('str', format(va.args[0], sa_.args[0])))
+            except (ValueError, TypeError):
+                pass
+    if fn == 'fstr' and not kwargs and args and all(x.single_atom() is not None and x.single_atom().kind == 'str' for x in args):
+        return Term.of(Atom('str', ''.join(x.single_atom().args[0] for x in args)))
+    if fn == '.encode' and len(args) == 1 and not kwargs:
+        va = args[0].single_atom()
+        if va is not None and va.kind == 'str':
+            return Term.of(Atom('bytes', va.args[0].encode()))
+    if fn == '.decode' and len(args) == 1 and not kwargs:
+        va = args[0].single_atom()
+        if va is not None and va.kind == 'bytes':
+            try:
+                return Term.of(Atom('str', va.args[0].decode()))
+            except UnicodeDecodeError:
+                pass
     if fn == 'copy' and len(args) == 1 and not kwargs:
         return args[0]              # a copy has the same VALUE (whether it is a copy is decided by the effect/alias rules)
     if fn == 'array' and len(args) == 1 and not kwargs and _array_valued(args[0]):
@@ -1169,6 +1198,19 @@ def _walk_arg(x, acc):
     elif isinstance(x, tuple):
         for y in x:
             _walk_arg(y, acc)
+
+
+_COND_MEMO = {}
+
+
+def _conditions_memo(t):
+    k = t.key
+    r = _COND_MEMO.get(k)
+    if r is None:
+        if len(_COND_MEMO) > 200000:
+            _COND_MEMO.clear()
+        r = _COND_MEMO[k] = frozenset(conditions(t))
+    return r
 
 
 def conditions(t):
